@@ -77,7 +77,7 @@ Definition shape_rpath (s:shape) : option term :=
   end.
 
 Definition mkp (s:shape) (c:N) (f:term) (v:option term) (p:option term) (details:list vresult) : vresult :=
-  VR f v p c (sid s) (ssev s) details.
+  VR f v p c (sid s) (ssev s) (smsgs s) details.
 Definition mk (s:shape) (c:N) (f:term) (v:option term) (details:list vresult) : vresult :=
   mkp s c f v (shape_rpath s) details.
 
